@@ -146,7 +146,7 @@ func Subtree(run RunFunc, prefix []int, b Bounds, st *Stats) {
 	for len(stack) > 0 {
 		it := stack[len(stack)-1]
 		stack = stack[:len(stack)-1]
-		if b.MaxExec > 0 && st.Executions >= b.MaxExec {
+		if b.MaxExec > 0 && st.Executions+st.Pruned >= b.MaxExec {
 			st.Capped = true
 			return
 		}
@@ -270,7 +270,7 @@ func exploreNodePOR(run RunPORFunc, it PORItem, b Bounds, st *Stats) (sleepable 
 	if st.Broken != "" || (b.StopAtFirst && st.ViolCount > 0) {
 		return false
 	}
-	if b.MaxExec > 0 && st.Executions >= b.MaxExec {
+	if b.MaxExec > 0 && st.Executions+st.Pruned >= b.MaxExec {
 		st.Capped = true
 		return false
 	}
